@@ -6,6 +6,7 @@ import SecsModel.Model.SecsHandle
 `secshandle handle <host|equipment> <wGate 0|1><abortAny 0|1> <selected 0|1> <COMM> <waiting sys,sys|-> <user s.f,s.f|->
                    <outcome none|raises|reply.<s>.<f>|rtr.<s>.<f>> <s> <f> <w> <sys> <header hex>`
 answer `ok <frame>;<frame>…` with `<frame> = D.<s>.<f>.<w>.<sys>.<fn|E|H<hex>>` or `R.<sys>`
+`secshandle which <host|equipment> <user s.f,…|-> <s> <f>` → `ok user|builtin|none` (which callable `_call` runs);
 `secshandle builtin <host|equipment>`, `secshandle catalogue`, `secshandle f0` list the generated facts.
 -/
 namespace SecsModel.Drv.SecsHandle
@@ -48,6 +49,11 @@ def handle : List String → String
                          wGate := fl.getD 0 '0' == '1', abortAny := fl.getD 1 '0' == '1' }
       "ok " ++ ";".intercalate ((Model.SecsHandle.handle env ⟨s, f, w, sys, hdr⟩).map showFrame)
     | _, _, _, _, _, _, _, _, _, _, _ => "bad-op"
+  | ["which", cls, user, s, f] =>
+    match builtinOf cls, parsePairs user, s.toNat?, f.toNat? with
+    | some bi, some user, some s, some f =>
+      "ok " ++ (match selects { user := user, builtin := bi } s f with | .user => "user" | .builtin => "builtin" | .none => "none")
+    | _, _, _, _ => "bad-op"
   | ["builtin", cls] => match builtinOf cls with
     | some bi => "ok " ++ showPairs bi
     | none => "bad-op"
